@@ -87,7 +87,9 @@ pub fn run_check(mut chk: Check, seed: u64, config_name: &str) -> Outcome {
         cases: chk.cases,
         failure_persistence: None,
         rng_seed: RngSeed::Fixed(sub_seed),
-        max_shrink_iters: 4096,
+        // shrinking re-executes the case: for the checks with very large inputs (thousands of points per case) a
+        // full shrink would run into the watchdog and turn a violation into "inconclusive"
+        max_shrink_iters: if chk.name.contains("huge") || chk.name.contains("large") || chk.name.contains("positions") { 48 } else { 4096 },
         max_global_rejects: 65536,
         ..Config::default()
     };
